@@ -85,9 +85,8 @@ class _R:
 
 def _batch_job(chunk, w, monitors, max_level, timeout, max_alloc, workers):
     before = [set(it.meta) for it in chunk]
-    # side-by-side JVMs share the memory a single one used to have (the live set of a batch is a few hundred MB)
     r = runner.run_refine(chunk, w=w, monitors=monitors, max_level=max_level, timeout=timeout, max_alloc=max_alloc,
-                          workers=workers, heap='8g' if workers >= common.NPROC else '5g')
+                          workers=workers, heap='8g')
     back = [(it.skip, it.result, it.meta.get('features'), {k: v for k, v in it.meta.items() if k not in b and k != 'features'})
             for it, b in zip(chunk, before)]
     return (None if r is None else _R(r)), back
